@@ -565,7 +565,10 @@ class UnionMetaType(StructureMetaType):
 
         # If we haven't written anything yet and we initially skipped an anonymous struct, write it now
         if stream.tell() == offset and anonymous_struct:
-            anonymous_struct._write(stream, data)
+            # Write the anonymous struct from its own value, its members may be anonymous structs themselves
+            if (value := getattr(data, anonymous_struct.__name__, None)) is None:
+                value = data
+            anonymous_struct._write(stream, value)
 
         # If we haven't filled the union size yet, pad it
         if remaining := expected_offset - stream.tell():
